@@ -174,7 +174,49 @@ func sortedKeys(m boltz.MapFieldChecker) []string {
 // c13TwoHandles: two TypedBucket handles on the same bucket inside one transaction (the entity strategy's bucket and
 // the one a constraint or a link collection looked up for itself). What one handle writes - a list or a map replacing
 // an earlier one - is what the other handle reads next, however often it has read the old value before.
+// c13TypeChange: a field is overwritten with a value of another type whose text equals the old value's rendering
+// (int64 42 -> string "42", bool true -> string "true", and back): what is read afterwards is the new value with the
+// new type.
+func c13TypeChange(c *core.Ctx) {
+	d, err := openC13(c)
+	if err != nil {
+		c.Violation("C13 setup", err.Error(), nil)
+		return
+	}
+	defer d.close()
+	for _, tc := range []struct {
+		name  string
+		first func(b *boltz.TypedBucket)
+		text  string
+	}{
+		{"int64 42", func(b *boltz.TypedBucket) { b.SetInt64("tc", 42, nil) }, "42"},
+		{"bool true", func(b *boltz.TypedBucket) { b.SetBool("tc", true, nil) }, "true"},
+		{"float64 2.5", func(b *boltz.TypedBucket) { b.SetFloat64("tc", 2.5, nil) }, "2.5"},
+		{"int32 -7", func(b *boltz.TypedBucket) { b.SetInt32("tc", -7, nil) }, "-7"},
+	} {
+		if err := d.update(func(b *boltz.TypedBucket) { tc.first(b) }); err != nil {
+			c.Violationf("C13 type change: first write failed", tc.name, "%v", err)
+			continue
+		}
+		if err := d.update(func(b *boltz.TypedBucket) { b.SetString("tc", tc.text, nil) }); err != nil {
+			c.Violationf("C13 type change: write of the string failed", tc.name, "%v", err)
+			continue
+		}
+		d.view(func(b *boltz.TypedBucket) {
+			typ, _ := boltz.GetTypeAndValue(b.Get([]byte("tc")))
+			got := b.GetString("tc")
+			c.Eval()
+			c.Count("type_changes", 1)
+			if typ != boltz.TypeString || got == nil || *got != tc.text || b.GetInt64("tc") != nil || b.GetBool("tc") != nil || b.GetFloat64("tc") != nil {
+				c.Violationf("C13 a string written over a "+tc.name+" field with the same text is not what is read back", map[string]any{"field_before": tc.name, "string_written": tc.text},
+					"stored type tag %d (string is %d), GetString %v, GetInt64 %v, GetBool %v, GetFloat64 %v", typ, boltz.TypeString, derefS(got), b.GetInt64("tc"), b.GetBool("tc"), b.GetFloat64("tc"))
+			}
+		})
+	}
+}
+
 func c13TwoHandles(c *core.Ctx) {
+	c13TypeChange(c)
 	r := c.Rand()
 	d, err := openC13(c)
 	if err != nil {
